@@ -848,6 +848,109 @@ func (v *env) opSeek() {
 	v.after("seek")
 }
 
+// opOverlap fetches several pieces of content, keeps every reader open, and
+// only then reads them, in another order: each reader must deliver exactly the
+// bytes of what it was opened for, whatever was fetched in between.
+func (v *env) opOverlap() {
+	type held struct {
+		n    *node
+		how  string
+		desc ocispec.Descriptor
+		rc   io.ReadCloser
+	}
+	var hs []held
+	closeAll := func() {
+		for _, h := range hs {
+			if h.rc != nil {
+				h.rc.Close()
+			}
+		}
+	}
+	k := 2 + v.rng.IntN(3)
+	var plan []string
+	type pl struct {
+		n   *node
+		how string
+	}
+	var pls []pl
+	for j := 0; j < k; j++ {
+		if v.rng.IntN(5) == 0 {
+			n := v.pick(func(n *node) bool { return v.hasBlob(n) && !v.routeManifest(n.desc.MediaType) })
+			if v.hasBlob(n) && !v.routeManifest(n.desc.MediaType) {
+				pls = append(pls, pl{n, "fetch"})
+			}
+			continue
+		}
+		n := v.pick(func(n *node) bool { m, ok := v.exp.manifests[n.desc.Digest]; return ok && m.mt == n.desc.MediaType })
+		if m, ok := v.exp.manifests[n.desc.Digest]; !ok || m.mt != n.desc.MediaType {
+			continue
+		}
+		how := []string{"fetchref-digest", "fetchref-digest", "fetchref-tag", "fetch"}[v.rng.IntN(4)]
+		if how == "fetch" && !v.routeManifest(n.desc.MediaType) {
+			how = "fetchref-digest"
+		}
+		if how == "fetchref-tag" {
+			tag := ""
+			var ts []string
+			for t, d := range v.exp.tags {
+				if d == n.desc.Digest {
+					ts = append(ts, t)
+				}
+			}
+			sort.Strings(ts)
+			if len(ts) > 0 && !(v.prof.UnknownLength && !v.prof.DigestHeader) {
+				tag = ts[v.rng.IntN(len(ts))]
+			}
+			if tag == "" {
+				how = "fetchref-digest"
+			} else {
+				how = "fetchref-tag:" + tag
+			}
+		}
+		pls = append(pls, pl{n, how})
+	}
+	if len(pls) < 2 {
+		return
+	}
+	for _, p := range pls {
+		plan = append(plan, fmt.Sprintf("%s(%d)", p.how, p.n.id))
+	}
+	order := v.rng.Perm(len(pls))
+	v.step("overlap", fmt.Sprintf("open %s read-order %v", strings.Join(plan, ","), order))
+	for _, p := range pls {
+		h := held{n: p.n, how: p.how}
+		var err error
+		switch {
+		case p.how == "fetch":
+			h.desc = p.n.desc
+			h.rc, err = v.repo.Fetch(ctx, p.n.desc)
+		case p.how == "fetchref-digest":
+			h.desc, h.rc, err = v.repo.FetchReference(ctx, p.n.desc.Digest.String())
+		default:
+			h.desc, h.rc, err = v.repo.FetchReference(ctx, strings.TrimPrefix(p.how, "fetchref-tag:"))
+		}
+		if err != nil {
+			closeAll()
+			v.fail("fetch-failed", "overlap: %s of node %d failed: %v", p.how, p.n.id, err)
+			v.after("overlap")
+			return
+		}
+		hs = append(hs, h)
+	}
+	for _, j := range order {
+		h := hs[j]
+		got, rerr := readVerified(h.rc, h.desc)
+		hs[j].rc = nil
+		if rerr != nil || !bytes.Equal(got, h.n.bytes) {
+			closeAll()
+			v.fail("overlapping-readers", "%d readers held open, read in order %v: the reader opened by %s for node %d (#%d) did not deliver that content (%d bytes read, error %v)", len(hs), order, h.how, h.n.id, j, len(got), rerr)
+			break
+		}
+		v.res.Count("overlapped_readers_read", 1)
+	}
+	v.after("overlap")
+}
+
 // ---- driver ---------------------------------------------------------------
 
 func runHist(i int) worker.Result {
@@ -878,7 +981,7 @@ func runHist(i int) worker.Result {
 	}
 	ops := []wop{{13, v.opPush}, {6, v.opPushRef}, {2, v.opPushBad}, {10, v.opFetch}, {8, v.opFetchRef}, {3, v.opFetchRefBlob},
 		{6, v.opExists}, {6, v.opResolve}, {2, v.opResolveBlob}, {6, v.opTag}, {7, v.opDelete}, {5, v.opMount},
-		{6, v.opPreds}, {5, v.opReferrers}, {4, v.opTags}, {5, v.opSeek}, {1, v.opInvalidRef}}
+		{6, v.opPreds}, {5, v.opReferrers}, {4, v.opTags}, {5, v.opSeek}, {1, v.opInvalidRef}, {5, v.opOverlap}}
 	total := 0
 	for _, o := range ops {
 		total += o.w
